@@ -137,7 +137,8 @@ class Slot:
 
     def __init__(self):
         self.cost = None
-        self.param = None  # materialised
+        self.param = None  # materialised, handed to the cost
+        self.param_ref = None  # the reference model's own copy, built separately
         self.param_spec = None
         self.fitted = None  # dataset id or None (unspecified)
         self.dets = {}
@@ -150,6 +151,7 @@ def _slot_attr(name):
 class Sim:
     cost = _slot_attr("cost")
     param = _slot_attr("param")
+    param_ref = _slot_attr("param_ref")
     param_spec = _slot_attr("param_spec")
     fitted = _slot_attr("fitted")
     dets = _slot_attr("dets")
@@ -218,6 +220,9 @@ class Sim:
         if st.get("k", 0):
             self.probe("step_on_second_instance")
         getattr(self, "op_" + op)(st, ev, i)
+        if self.cost is not None and op in ("fit", "eval", "det_run") and core.canon(self.param) != core.canon(self.param_ref):
+            # the parameter object handed to the cost (its hyper-parameter) was modified
+            self.violate("param_mutated", op, i, {"param_now": repr(self.param)[:300], "param_given": repr(self.param_ref)[:300]})
         self.events.append(ev)
         self.sig.append((op, self.kind, self.mode() if self.cost is not None else None, ev.get("tag")))
         return ev
@@ -226,6 +231,7 @@ class Sim:
         cls = core.register_classes()[KINDS[self.kind]]
         self.param_spec = st["param"]
         self.param = build_param(self.kind, st["param"], None)
+        self.param_ref = build_param(self.kind, st["param"], None)
         self.cost = cls(self.param)
         self.fitted = None
         self.dets = {}
@@ -237,6 +243,7 @@ class Sim:
             return
         self.param_spec = st["param"]
         self.param = build_param(self.kind, st["param"], None)
+        self.param_ref = build_param(self.kind, st["param"], None)
         self.cost.set_params(param=self.param)
         self.fitted = None
         ev["res"] = "ok"
@@ -293,12 +300,12 @@ class Sim:
 
     def param_ok_for(self, X):
         p = X.shape[1]
-        if self.param is None:
+        if self.param_ref is None:
             return True
         try:
             if self.kind == "l2":
-                return np.asarray(self.param, float).reshape(-1).size in (1, p)
-            m, v = self.param
+                return np.asarray(self.param_ref, float).reshape(-1).size in (1, p)
+            m, v = self.param_ref
             if np.asarray(m, float).reshape(-1).size not in (1, p):
                 return False
             if self.kind == "gv":
@@ -371,7 +378,7 @@ class Sim:
         arg = cuts[0] if (st.get("as1d") and len(cuts) == 1) else cuts
         fp = fingerprint_arg(arg)
         self.perm_rng = np.random.default_rng(st["perm"]) if st.get("perm") is not None else None
-        refs = [ref_row(self.kind, self.param, X, int(s), int(e)) for s, e in cuts]
+        refs = [ref_row(self.kind, self.param_ref, X, int(s), int(e)) for s, e in cuts]
         fault = st.get("fault")
         self.stats["batches"] += 1
         try:
@@ -488,14 +495,17 @@ def _gen_param(rng, kind, p):
         m = {"__arr__": [round(float(v), 3) for v in rng.normal(size=p) * big], "dtype": "float64"}
     if kind == "l2":
         return m
+    ints = rng.random() < 0.2
     if kind == "gv":
         if mode == 1:
-            v = round(float(rng.uniform(0.01, 30)), 4)
+            v = int(rng.integers(1, 6)) if ints else round(float(rng.uniform(0.01, 30)), 4)
+        elif ints:
+            v = {"__arr__": [int(x) for x in rng.integers(1, 6, size=p)], "dtype": "int64"}
         else:
             v = {"__arr__": [round(float(x), 4) for x in rng.uniform(0.01, 30, size=p)], "dtype": "float64"}
         return {"__tuple__": [m, v]}
     if mode in (1, 3):
-        c = round(float(rng.uniform(0.01, 30)), 4)
+        c = int(rng.integers(1, 6)) if ints else round(float(rng.uniform(0.01, 30)), 4)
     else:
         A = rng.normal(size=(p, p))
         c = {"__arr__": np.round(A @ A.T + 0.1 * np.eye(p), 4).tolist(), "dtype": "float64"}
